@@ -1667,6 +1667,8 @@ class Memoer(Tymee):
 
         memo = bytearray()
         for i in range(cnt):  # iterate in numeric order, items are insertion ordered
+            if i not in grams:  # a gram number >= cnt stands in for a missing gram
+                return None
             memo.extend(grams[i])  # extend memo with gram body part at gram i
 
         return memo.decode()  # convert bytearray to str
@@ -1684,7 +1686,16 @@ class Memoer(Tymee):
             # if mid then grams dict at mid must not be empty
             if not mid in self.counts:  # missing first gram so skip
                 continue
-            memo = self.fuse(self.rxgs[mid], self.counts[mid])
+            try:
+                memo = self.fuse(self.rxgs[mid], self.counts[mid])
+            except UnicodeDecodeError as ex:  # complete but not a text memo so drop
+                logger.error("Invalid Memoer memo from %s.\n %s.",
+                             self.sources[mid], ex)
+                del self.rxgs[mid]
+                del self.counts[mid]
+                del self.sources[mid]
+                del self.vids[mid]
+                continue
             if memo is not None:  # allows for empty "" memo for some src
                 self.rxms.append((memo, self.sources[mid], self.vids[mid]))
                 del self.rxgs[mid]
